@@ -120,10 +120,16 @@ pub fn c04(g: &mut Gen) {
 }
 
 pub fn c09_wm(g: &mut Gen) {
-    for vals in [vec![], vec![0u64], vec![0, 1], vec![3, 1, 3, 3, 0, 2, 3], (0..200).map(|i| (i * 7) % 13).collect::<Vec<u64>>()] {
+    // … and vectors whose length is a power of two (or just above one) over alphabets with ABSENT values, where the sentinel
+    // stored for an absent value is the widest entry of the `first` array
+    for vals in [vec![], vec![0u64], vec![0, 1], vec![3, 1, 3, 3, 0, 2, 3], (0..200).map(|i| (i * 7) % 13).collect::<Vec<u64>>(),
+                 vec![0, 0, 0, 0, 1, 1, 3, 3], vec![2, 2], vec![0, 3, 3, 0], vec![5, 5, 5, 5, 5, 5, 5, 5, 1], (0..64).map(|i| if i < 40 { 0 } else { 6 }).collect::<Vec<u64>>(),
+                 (0..16).map(|i| [1u64, 4, 4, 9][i % 4]).collect::<Vec<u64>>()] {
         let n = vals.len() as u64;
         let maxv = vals.iter().cloned().max().unwrap_or(0);
         let mut lines = vec![format!("wm A from u64 {}", vals_str(&vals))];
+        for v in 0..=(maxv + 1) { lines.push(format!("wm A contains {}", v)); lines.push(format!("wm A rank {} {}", MAXU, v)); lines.push(format!("wm A rank {} {}", n, v)); lines.push(format!("wm A select 0 {}", v)); }
+        lines.push("wm A ser".to_string());
         for i in boundary_values(n) {
             lines.push(format!("wm A invsel {}", i));
             lines.push(format!("wm A core u64 mapdown {} : {}", i, vals_str(&vals)));
